@@ -323,7 +323,13 @@ def mulDiv100 (a b : Val) : Val :=
     | .pinf => .pinf
     | .ninf => .ninf
     | .nan => .nan
-  | _, _ => .nan   -- not reachable: both come from Number tokens that are finite, inf is handled as-is below
+  | .nan, _ | _, .nan => .nan
+  | a, b =>
+    -- an operand is infinite (a literal beyond the double range is a Number token with value inf): IEEE signs, 0 * inf = nan
+    let sign : Val → Int := fun v => match v with
+      | .num x => if x > 0 then 1 else if x < 0 then -1 else 0
+      | .pinf => 1 | .ninf => -1 | .nan => 0
+    if sign a * sign b > 0 then .pinf else if sign a * sign b < 0 then .ninf else .nan
 
 /-- `Parser.param_limit` -/
 def paramLimit (s : PS) (value : Val) (upper : Bool) : PyM (Val × PS) :=
